@@ -21,6 +21,12 @@ def eval_expr(e, env: dict):
     d = dotted(e)
     if d is not None and d in env:
         return env[d]
+    if env.get('__texts__'):
+        from .loader import norm_text
+
+        t = norm_text(e)
+        if t in env['__texts__']:
+            return env['__texts__'][t]
     if isinstance(e, ast.Constant):
         return e.value
     if isinstance(e, ast.Name) and e.id in _TYPES:
